@@ -170,7 +170,8 @@ WiringOk(rt, held) ==
 \* descriptors above 2 the new image may legitimately see: whatever was inheritable in the harness
 \* before the library did anything; never an end of a pipe the library created
 NoLeak(rt) ==
-  \A fd \in DOMAIN rt : fd > 2 => rt[fd].ino \notin libpipes
+  \A fd \in DOMAIN rt : (fd > 2 /\ rt[fd].ino \in libpipes) =>
+    \E i \in (DOMAIN rt) \cap (0..2) : rt[i].ino = rt[fd].ino /\ rt[i].acc = rt[fd].acc
 \* and the standard streams themselves are library pipes only where a pipe (or a merge onto one) was asked for
 StdNotStray(rt) ==
   \A i \in 0..2 : (i \in DOMAIN rt /\ rt[i].ino \in libpipes) =>
